@@ -31,7 +31,7 @@ def design_configs(tier):
     if tier == 'quick':
         return [('b4', base),
                 # what sits at the read boundary (a CR or not) as a dimension of the environment
-                ('b4cr', dict(base, TrackBoundary='TRUE', MaxSize=3, Modes='{"load"}'))]
+                ('b4cr', dict(base, TrackBoundary='TRUE', MaxSize=3, MaxGap=4, Modes='{"load"}'))]
     return [('b4', dict(base, MaxDocs=3, MaxSize=12, MaxGap=12, MaxKey=4)),
             ('b4cr', dict(base, TrackBoundary='TRUE')),
             ('b4t2', dict(base, MaxTail=2, MaxSize=8)),
@@ -277,19 +277,23 @@ def open_file(kind, path, enc):
 
 
 def file_slack(kind, path, enc, block):
-    """the file object's own read-ahead, measured: the largest distance between the position of the descriptor and the
-    bytes handed out while the file is read in read(block) calls (nothing of PyYAML involved)"""
+    """the file object's own read-ahead, measured without PyYAML while the file is read in read(block) calls: 0 if the
+    descriptor never runs ahead of what was handed out (raw file); otherwise the largest advance of the descriptor seen
+    in one call - what a buffered / decoding file object fetches at a time bounds what it can hold back"""
     f = open_file(kind, path, enc)
     fd = f.fileno()
-    total = slack = 0
+    total = ahead = step = last = 0
     while True:
         r = f.read(block)
         if not r:
             break
         total += len(r) if isinstance(r, bytes) else len(r.encode(enc, 'surrogatepass'))
-        slack = max(slack, os.lseek(fd, 0, os.SEEK_CUR) - total)
+        pos = os.lseek(fd, 0, os.SEEK_CUR)
+        ahead = max(ahead, pos - total)
+        step = max(step, pos - last)
+        last = pos
     f.close()
-    return slack
+    return step if ahead > 0 else 0
 
 
 # ------------------------------------------------------------------------------------------------ one observed iteration
@@ -410,7 +414,7 @@ def work(args):
         enc = 'utf-16-le' if m.get('form') == 'utf-16-le' else 'utf-8'
         if isinstance(text, bytes):
             data, uends, ubad = text, ends, 0
-            maxw = 2 if enc == 'utf-16-le' else 1
+            maxw = maxwidth(data.decode(enc, 'surrogatepass'), enc)
         else:
             data, uends, ubad = to_units(text, ends, bad, enc)
             maxw = maxwidth(text, enc)
@@ -443,7 +447,8 @@ def work(args):
                      'layout': desc, 'abandon_after': None}
                 full_api = ('scan', 'parse', 'compose_all', 'load_all')[j % 4]
                 for api in ('scan', 'parse', 'compose_all', 'load_all'):
-                    ab = None if api == full_api else ('doc', min(len(uends), 40 + sd % 50))
+                    ab = None if (api == full_api and len(uends) <= 1500) else \
+                        ('doc', min(len(uends), (300 + sd % 200) if api == full_api else (40 + sd % 50)))
                     o = iterate(yaml, api, be, data, rule, sd, ab)
                     record(o, api, be, uends, None, 0, o['block'], 0, dict(m, abandon_after=list(ab) if ab else None))
                 if j % 2 == 0:
@@ -503,7 +508,7 @@ def main(tier, replay=None):
     nstreams = 160 if q else 1600
     seeds = [SEED * 1000003 + i for i in range(nstreams)]
     res = {}
-    th = threading.Thread(target=lambda: res.update(run_all(jobs, workers=4, concurrent=4)))
+    th = threading.Thread(target=lambda: res.update(run_all(jobs, workers=4 if q else 5, concurrent=5 if q else 4)))
     th.start()
     nch = 64
     with mp.Pool(12) as pool:
